@@ -165,6 +165,25 @@ func propAuth(t *rapid.T) {
 		}
 		return
 	}
+	// the gate mounted as a plain http.Handler (HandlerFunc.ServeHTTP in an http.ServeMux), outside any router: the same
+	// verdict reaches the client
+	{
+		mux := http.NewServeMux()
+		mux.Handle(reqPath, auth)
+		rec2 := httptest.NewRecorder()
+		req2 := httptest.NewRequest("GET", reqPath, nil)
+		if header != "" || kind == "empty-value" {
+			req2.Header.Set("Authorization", header)
+		}
+		mux.ServeHTTP(rec2, req2)
+		want := 200
+		if !allow {
+			want = rec.Code
+		}
+		if rec2.Code != want {
+			t.Fatalf("the gate as a plain http.Handler answers %d, inside the router the request is answered %d (allowed=%v): %s", rec2.Code, rec.Code, allow, ctx)
+		}
+	}
 	switch {
 	case allow:
 		if rec.Code != 200 || rec.Body.String() != "secret" {
